@@ -335,7 +335,11 @@ impl<'tcx> Cx<'tcx> {
                         mir::AssertKind::OverflowNeg(a) => ("overflowneg".into(), vec![self.operand(did, body, a)]),
                         mir::AssertKind::DivisionByZero(a) => ("div0".into(), vec![self.operand(did, body, a)]),
                         mir::AssertKind::RemainderByZero(a) => ("rem0".into(), vec![self.operand(did, body, a)]),
-                        _ => ("other".into(), vec![]),
+                        other => {
+                            let d = format!("{:?}", other);
+                            let name: String = d.chars().take_while(|c| c.is_alphanumeric() || *c == '_').collect();
+                            (format!("other:{}", name), vec![])
+                        }
                     };
                     let _ = write!(
                         out,
